@@ -949,6 +949,9 @@ class Engine:
 
     def eval_const(self, s, ty_hint=None):
         s = s.strip()
+        for pat, val in getattr(self, "const_models", {}).items():
+            if re.search(pat, s):
+                return dict(val) if isinstance(val, dict) else {(): val}
         if s in ("true", "false"):
             return {(): z3.BoolVal(s == "true")}
         m = re.match(r"^(-?\d+)_([ui](?:8|16|32|64|128|size))$", s)
@@ -1288,7 +1291,7 @@ class Engine:
     # ---- exploration ----------------------------------------------------------------
     def explore(self, body, inline=(), pure=(), noop=(), max_visits=2, models=None,
                 arg_values=None, log_enabled=False, follow_panics=False, max_paths=20000,
-                pre=None, keep_drop_events=False, nomut=()):
+                pre=None, keep_drop_events=False, nomut=(), consts=None):
         """Enumerate feasible paths of `body`. Returns list[Path]."""
         self.inline = [re.compile(p) for p in inline]
         self.pure = [re.compile(p) for p in pure]
@@ -1300,6 +1303,7 @@ class Engine:
         self.follow_panics = follow_panics
         self.max_paths = max_paths
         self.keep_drop_events = keep_drop_events
+        self.const_models = consts or {}
         self.paths = []
         self.bound_hits = 0
         self.frame_n = 0
@@ -1895,6 +1899,15 @@ class Engine:
                         return {(): z3.If(no_ov, r, z3.BitVecVal((1 << n) - 1, n))}
                     if op == "sub":
                         return {(): z3.If(no_ov, r, z3.BitVecVal(0, n))}
+        m = re.match(r"^(?:core|std)::num::<impl (u(?:8|16|32|64|128|size))>::next_multiple_of$", c)
+        if m and len(argvals) == 2:
+            x, y = argvals[0].get(()), argvals[1].get(())
+            if is_z(x) and is_z(y) and z3.is_bv(x) and x.sort() == y.sort():
+                rem = z3.URem(x, y)
+                add = z3.If(rem == 0, z3.BitVecVal(0, x.size()), y - rem)
+                # the real function panics on overflow (and on y == 0)
+                st.cond.append(z3.And(y != 0, z3.BVAddNoOverflow(x, add, False)))
+                return {(): x + add}
         m = re.match(r"^(?:std::cmp::|core::cmp::)?(min|max)::<(.*)>$", c)
         if m and len(argvals) == 2:
             x, y = argvals
